@@ -196,7 +196,7 @@ class Flattener:
                 recv = None if g.is_staticmethod else f.value
             else:
                 recv = f.value
-                selfname = fn.params[0] if (fn.is_method or fn.cls) and fn.params and not fn.is_staticmethod else None
+                selfname = fn.params[0] if fn.is_method and fn.params and not fn.is_staticmethod else None
                 own = isinstance(recv, ast.Name) and recv.id == selfname
                 if own:
                     if fn.cls is None or m.lookup(fn.cls, f.attr) is not g:
